@@ -138,7 +138,6 @@ def run(ck: Check) -> int:
         sr.histogram['hidden-path-evaluations'] = n_hidden
         sr.note = ('sandwich Must ⊆ globmatch ⊆ May on every path with a hidden piece or ./.. (DOTGLOB on/off, MATCHBASE, '
                    'GLOBSTAR, EXTGLOB, IGNORECASE); exclusion (exclude=) compared with the DOTGLOB match of the same pattern')
-    ck.search('hidden-sandwich-glob', s_search)
 
     def s_fn(sr):
         names = [n for n in gen.names_upto('a.b', 3) if n.startswith('.')]
@@ -173,7 +172,66 @@ def run(ck: Check) -> int:
             if len(sr.samples) < 2:
                 sr.samples.append({'pattern': p, 'flags': hex(fl)})
         sr.note = 'same sandwich in fnmatch mode (single segment) on every name <= 3 over "a.b" that begins with a dot'
-    ck.search('hidden-sandwich-fnmatch', s_fn)
+
+    # ---- "no pattern, however composed": EVERY dot-free string as a pattern (malformed ones
+    # included — unclosed groups, stray `)` `|` `]`), hidden names must be rejected (added after
+    # seeded change C03a: a failed extended-group parse did not restore the start state)
+    def s_all(sr):
+        alpha = 'a*?[]!()|+@\\/'
+        pats_all = [p for p in gen.exhaustive(alpha, 4 if not ck.deep() else 5, 1)]
+        if ck.deep() and len(pats_all) > 250000:
+            pats_all = R.sample(pats_all, 250000)
+        for _ in range(4000 if quick else 60000):
+            q = gen.mutate(R, P.gen_path(R)).replace('.', 'a')
+            pats_all.append(q)
+        fn_names = ['.', '..', '.a', '.ab', '.(a', '.(ab', '.a)', '.|a', '.[a', '.a|a', '.!a', '.@(a', '.+(a)', '.a]', '.\\a']
+        pth_names = fn_names + ['a/.a', '.a/a', 'a/.(a', 'a/.', 'a/..', './a', '../a', 'a/.a/a', 'a/.(ab', '.a/', 'a/.a)']
+        fn_fl = F.E | F.U
+        g_fl = G.E | G.U | G.G
+        sr.note = (f'{len(pats_all)} dot-free strings as patterns (every string <= 4 over {alpha!r}, thorough 5, plus token-level mutations of '
+                   'grammar patterns): fnmatch (EXTMATCH) / globmatch (EXTGLOB|GLOBSTAR) must reject every hidden name / path with a hidden '
+                   'or ./.. piece; an accept is attributed to KF-D5 / KF-D4 only when the Lean port of the parser gives the same verdict '
+                   'and its emitted items show that finding\'s signature (a successfully parsed extended group of any kind leading a segment; segment-initial star followed by a non-literal)')
+        hits = []
+        for p in pats_all:
+            if '.' in p:
+                continue
+            sr.distinct += 1
+            try:
+                with common.time_limit(5):
+                    m = F.compile(p, flags=fn_fl)
+                    acc_fn = [n for n in fn_names if m.match(n)] if '/' not in p else []
+                    mg = G.compile(p, flags=g_fl)
+                    acc_g = [n for n in pth_names if mg.match(n)]
+            except common.CallTimeout:
+                continue
+            except Exception:   # noqa: BLE001  (C10's business)
+                continue
+            sr.evaluations += len(fn_names) + len(pth_names)
+            if acc_fn:
+                hits.append(('fnmatch', p, fn_fl, acc_fn))
+            if acc_g:
+                hits.append(('globmatch', p, g_fl, acc_g))
+        sr.histogram['patterns_accepting_a_hidden_name'] = len(hits)
+        if hits and drv:
+            fl_int = {'fnmatch': (W.EXTMATCH | W.FORCEUNIX), 'globmatch': (W.EXTMATCH | W.FORCEUNIX | W.PATHNAME | W.GLOBSTAR)}
+            sig = drv.ask_many([f'segstarts {fl_int[api]} 0 {common.enc(p)}' for api, p, _fl, _a in hits])
+            mod = drv.ask_many([f'match {fl_int[api]} 0 {common.enc(p)} ' + ' '.join(common.enc(n) for n in acc) for api, p, _fl, acc in hits])
+            for (api, p, fl, acc), sg, mo in zip(hits, sig, mod):
+                kid = None
+                kinds = sg.split(' ')[1].split(',') if sg.startswith('ok ') else []
+                model_same = mo.startswith('ok ') and set(mo.split(' ')[1]) == {'1'}
+                if model_same:
+                    if any(k[:1] in ('G', 'I') for k in kinds):   # a successfully parsed group (any kind) at a segment start
+                        kid = 'KF-D5'
+                    elif api == 'globmatch' and any(len(k) > 1 and k[0] == 'W' and k[1] != 'L' for k in kinds):
+                        kid = 'KF-D4'
+                sr.histogram[kid or 'unattributed-accept'] = sr.histogram.get(kid or 'unattributed-accept', 0) + 1
+                ck.report(Failing(f'{api} accepts hidden {acc[0]!r} for the dot-free pattern {p!r}',
+                                  {'api': 'fnmatch' if api == 'fnmatch' else 'globmatch', 'pattern': p, 'name': acc[0], 'path': acc[0], 'flags': fl,
+                                   'item_kinds': kinds, 'model_verdict_same': model_same}, False, True,
+                                  'wcmatch/_wcparse.py: start-of-segment state (after_start) handling'), kid)
+    ck.search('dot-free-all-strings', s_all)
 
     # ---- real trees containing dot files / dot directories / dot-named links (added after seeded
     # change C03b: the walker descended a *hidden symlink* to a directory under `**` with FOLLOW)
@@ -276,6 +334,9 @@ def run(ck: Check) -> int:
         for f in tree_found:
             ck.report(f, None)
     ck.search('hidden-on-real-trees', s_tree)
+    # the sandwich searches last: they escalate to thorough depth when a tie is broken and nothing was found yet
+    ck.search('hidden-sandwich-glob', s_search)
+    ck.search('hidden-sandwich-fnmatch', s_fn)
     if drv:
         drv.close()
     return ck.finish()
